@@ -82,7 +82,7 @@ m = dict(version=1, setup_cmd="./check --build-only",
     engines=[dict(name="props", path="/verif/harness/props", serves_properties=claimed,
                   kind_free_text="Go test package driven by pgregory.net/rapid v1.3.0 (generate -> execute -> judge) and native go fuzzing, run by ./check")],
     checks=checks,
-    notes="All checks are property-based tests / fuzzers; see DESIGN.md. fix: commits in /repo are listed in known_findings.json.",
+    notes="All checks are property-based tests / fuzzers; see DESIGN.md. Known findings file: /verif/known_findings.json (fix: commits in /repo are its 'fixed' entries; its one 'known' entry, C20 generate with a retention longer than the time since the epoch, is reported as a KNOWN-FINDING line with exit 0).",
     not_applicable=[dict(property_id=p['id'], reason=NA.get(p['id'], "check under construction in this session (planned, see DESIGN.md section 4)")) for p in props if p['id'] not in claimed])
 json.dump(m, open(V + '/MANIFEST.json', 'w'), indent=1)
 print("claimed:", claimed)
